@@ -29,7 +29,7 @@ From Coq Require Import ZArith QArith Qcanon List Bool Lia Permutation.
 From PT Require Import Base.Scalar Base.BigSum Base.Mx Model.OpGraph Model.C17Common Model.AutOp Model.HamIsing Proofs.HamIsingDen.
 From PT Require Import Model.Tensor Model.FromOpchains Model.GraphMPO Model.Hamiltonians Model.HamFormulas
                        Proofs.DenRev_C05 Proofs.PampDen_C05 Proofs.GraphMPOSem Proofs.C05Final
-                       Proofs.HamShift Proofs.HamFinite Proofs.HamHerm Proofs.HamLinFerm.
+                       Proofs.HamShift Proofs.HamFinite Proofs.HamHerm Proofs.HamLinFerm Proofs.HamTotal.
 Import ListNotations.
 Open Scope Z_scope.
 Notation OkG := FromOpchains.Ok.
@@ -70,6 +70,49 @@ Theorem C06_fermi_den : forall (R : cring) cover (half t U mu : R) L g, (1 <= L)
   forall w, den_rev g w = fermi_formula t U mu L w /\ (linked g = true -> den g w = fermi_formula t U mu L w).
 Proof. exact fermi_den. Qed.
 Print Assumptions C06_fermi_den.
+(* ---------------- the constructors succeed: no "returns Ok" hypothesis (with C05's success/consistency theorems and the proved
+   cover model).  [some_term lop L]: some local chain that fits into L sites has a non-zero coefficient, i.e. not all resulting
+   chain coefficients vanish (C06_some_term_iff); otherwise the constructor raises (chain list empty after filtering). ---------------- *)
+Theorem C06_shift_chains_wf : forall (R : cring) (lop : list (chain R)) L,
+  forallb (local_ok R) lop = true -> existsb (@nonzero R) (local_opchains_to_chains lop L) = true ->
+  wf_chains L (local_opchains_to_chains lop L) = true.
+Proof. exact shift_chains_wf. Qed.
+Print Assumptions C06_shift_chains_wf.
+Theorem C06_some_term_iff : forall (R : cring) (lop : list (chain R)) L,
+  some_term R lop L = true <-> existsb (@nonzero R) (local_opchains_to_chains lop L) = true.
+Proof. intros R lop L. split; [apply some_term_nonzero|apply nonzero_some_term]. Qed.
+Print Assumptions C06_some_term_iff.
+Theorem C06_spec_total : forall (R : cring) (sp : hamspec R) L, (1 <= L)%nat ->
+  forallb (local_ok R) (h_lop sp) = true -> some_term R (h_lop sp) L = true ->
+  exists g, spec_graph cover_model sp L = OkG g /\ linked g = true /\
+    (forall fuel b, is_consistent_fuel fuel g = Some b -> b = true) /\
+    forall w, den g w = local_sum L (h_idn sp) (h_lop sp) w.
+Proof. exact spec_graph_total. Qed.
+Print Assumptions C06_spec_total.
+Theorem C06_xxz_total : forall (R : cring) (half J D h : R) L, (1 <= L)%nat -> some_term R (xxz_lop half J D h) L = true ->
+  exists g, spec_graph cover_model (xxz_spec half J D h) L = OkG g /\ linked g = true /\
+    (forall fuel b, is_consistent_fuel fuel g = Some b -> b = true) /\
+    forall w, den g w = xxz_formula half J D h L w.
+Proof. exact xxz_total. Qed.
+Print Assumptions C06_xxz_total.
+Theorem C06_xxz1_total : forall (R : cring) (half sq2 J D h : R) L, (1 <= L)%nat -> some_term R (xxz1_lop half J D h) L = true ->
+  exists g, spec_graph cover_model (xxz1_spec half sq2 J D h) L = OkG g /\ linked g = true /\
+    (forall fuel b, is_consistent_fuel fuel g = Some b -> b = true) /\
+    forall w, den g w = xxz_formula half J D h L w.
+Proof. exact xxz1_total. Qed.
+Print Assumptions C06_xxz1_total.
+Theorem C06_bose_total : forall (R : cring) d sq (t U mu : R) L, (1 <= L)%nat -> some_term R (bose_lop t U mu) L = true ->
+  exists g, spec_graph cover_model (bose_spec d sq t U mu) L = OkG g /\ linked g = true /\
+    (forall fuel b, is_consistent_fuel fuel g = Some b -> b = true) /\
+    forall w, den g w = bose_formula t U mu L w.
+Proof. exact bose_total. Qed.
+Print Assumptions C06_bose_total.
+Theorem C06_fermi_total : forall (R : cring) (half t U mu : R) L, (1 <= L)%nat -> some_term R (fermi_lop t U mu) L = true ->
+  exists g, spec_graph cover_model (fermi_spec half t U mu) L = OkG g /\ linked g = true /\
+    (forall fuel b, is_consistent_fuel fuel g = Some b -> b = true) /\
+    forall w, den g w = fermi_formula t U mu L w.
+Proof. exact fermi_total. Qed.
+Print Assumptions C06_fermi_total.
 (* the tables in textbook form (used to instantiate C06_spec_mpo per model) *)
 Theorem C06_tables : forall (R : cring) (half J D h t U mu : R) L w, (1 <= L)%nat ->
   local_sum L 0 (xxz_lop half J D h) w = xxz_formula half J D h L w /\
